@@ -24,6 +24,7 @@ class InstanceResult:
         self.samples = []         # (assignment, observations, notes) for trace validation / evidence
         self.exhausted = True
         self.wall = 0.0
+        self.fp = {"proved": 0, "failed": 0, "shapes": [], "xcheck": [], "disagreements": []}
 
     def merge_path(self, res, keep_sample):
         self.status_counts[res.status] = self.status_counts.get(res.status, 0) + 1
@@ -58,6 +59,13 @@ class InstanceResult:
         self.problems.extend(other.problems[: max(0, 5 - len(self.problems))])
         self.samples.extend(other.samples[: max(0, 6 - len(self.samples))])
         self.exhausted = self.exhausted and other.exhausted
+        of = getattr(other, "fp", None)
+        if of:
+            self.fp["proved"] += of["proved"]
+            self.fp["failed"] += of["failed"]
+            self.fp["shapes"].extend(of["shapes"][: max(0, 12 - len(self.fp["shapes"]))])
+            self.fp["xcheck"].extend(of["xcheck"])
+            self.fp["disagreements"].extend(of["disagreements"])
 
 
 def _want_sample(decisions_len, prefix, seed, rate):
@@ -107,9 +115,23 @@ _INSTANCES = None
 _OPTS = None
 
 
+def _fp_snapshot():
+    from . import fplemma
+    st = fplemma.STATS
+    return (st["proved"], st["failed"], len(st["shapes"]), len(st.get("xcheck", [])), len(st.get("disagreements", [])))
+
+
+def _fp_delta(before):
+    from . import fplemma
+    st = fplemma.STATS
+    return {"proved": st["proved"] - before[0], "failed": st["failed"] - before[1], "shapes": st["shapes"][before[2]:],
+            "xcheck": st.get("xcheck", [])[before[3]:], "disagreements": st.get("disagreements", [])[before[4]:]}
+
+
 def _worker(task):
     idx, prefix, model = task
     params = _INSTANCES[idx]
+    snap = _fp_snapshot()
     try:
         part, left = explore_subtree(_FN, params, prefix, model, _OPTS["chunk"], _OPTS["known_open"],
                                      _OPTS["seed"], _OPTS["sample_rate"], idx=idx, deadline=_OPTS["deadline"])
@@ -118,6 +140,7 @@ def _worker(task):
         part.status_counts["crash"] = 1
         part.problems.append(("crash", "".join(traceback.format_exception(type(e), e, e.__traceback__))[-3000:]))
         left = []
+    part.fp = _fp_delta(snap)
     return idx, part, left
 
 
